@@ -72,14 +72,15 @@ def relayout(a, layout):
 def build_cores(spec):
     g = np_gen(spec["sub_seed"])
     rows, cols, ranks = spec["rows"], spec["cols"], spec["ranks"]
-    cplx = spec.get("dtype", "f8") == "c16"
+    dt = spec.get("dtype", "f8")
+    cplx_per_core = [(x == "c16") for x in dt] if isinstance(dt, list) else [dt == "c16"] * len(rows)
     vals = spec.get("vals", "normal")
     lay = spec.get("layout") or ["C"] * len(rows)
     if isinstance(vals, str):
         vals = [vals] * len(rows)
     cores = []
     for i in range(len(rows)):
-        c = make_core(g, ranks[i], rows[i], cols[i], ranks[i + 1], cplx, vals[i], "C")
+        c = make_core(g, ranks[i], rows[i], cols[i], ranks[i + 1], cplx_per_core[i], vals[i], "C")
         if spec.get("neardiag") and rows[i] == cols[i]:
             # identity-dominant operator cores: generically well-conditioned micro systems for the solvers
             c = 0.2 * c
@@ -140,7 +141,9 @@ def rand_spec(rnd, order=None, kind=None, max_order=4, max_rank=6, layouts=("C",
     ranks = rand_ranks(rnd, rows, cols, max_rank)
     return {
         "rows": rows, "cols": cols, "ranks": ranks,
-        "dtype": "c16" if rnd.random() < cplx_p else "f8",
+        # all real, all complex, or (15 %) a mixture of real and complex cores in one train
+        "dtype": ([rnd.choice(("f8", "c16")) for _ in range(order)] if rnd.random() < 0.15 and 0.0 < cplx_p
+                  else ("c16" if rnd.random() < cplx_p else "f8")),
         "layout": [rnd.choice(layouts) for _ in range(order)],
         "vals": [rnd.choice(VALS) if vals is None else vals for _ in range(order)],
         "sub_seed": rnd.getrandbits(48),
